@@ -162,6 +162,15 @@ def t5_duplicates() -> Iterator[Dict[str, Any]]:
     yield project([mod("p", pkg=True, ops=flat(frm("_impl", "X", lvl=1), star("_impl", lvl=1)), all=["X", "helper"]),
                    mod("_impl", 1, ops=flat(cls("X", body=[fn("meth")]), fn("helper"))),
                    mod("zuser", 1, ops=flat(frm("p", "X"), cls("Sub", "X")))], "T5", shape="move-same-name-twice")
+    # three (four) definitions of one name with the analysis of ANOTHER module nested between them (an import of a module not
+    # analysed yet, a module that itself has duplicates): the numbering of the superseded definitions belongs to the registry
+    for how in ("from", "import", "star"):
+        between = {"from": frm("zz", "Z", lvl=1), "import": imp("p.zz"), "star": star("zz", lvl=1)}[how]
+        yield project([mod("p", pkg=True), mod("h", 1, ops=flat(cls("H", body=[fn("close"), fn("only1")]), cls("H", body=[fn("close"), fn("w")]), between,
+                                                                 cls("H", body=[fn("close")]), fn("g"), fn("g"), between, fn("g"))),
+                       mod("zz", 1, ops=flat(cls("Z"), fn("g"), fn("g"), cls("H"), cls("H")))], "T5", shape="triple-with-nested-analysis", how=how)
+    yield project([mod("p", pkg=True), mod("h", 1, ops=flat(cls("K", body=flat(fn("m"), fn("m"), frm("zz", "Z", lvl=1), fn("m"), fn("m"))))),
+                   mod("zz", 1, ops=flat(cls("Z", body=[fn("m"), fn("m")])))], "T5", shape="triple-member-with-nested-analysis")
     for form in ("plain", "star"):
         imp_ops = [frm("_impl", "X", lvl=1)] if form == "plain" else [star("_impl", lvl=1)]
         yield project([mod("p", pkg=True, ops=imp_ops, all=["X"]),
